@@ -91,6 +91,8 @@ def driver_prop(rec):
         return "C13"
     if pid.startswith("timer"):
         return "C14"
+    if ":stalled:" in key:
+        return "C10"
     return "C12"
 
 
